@@ -281,6 +281,14 @@ A(M("c07e-r8-union-silent", "C07", C, "                used.update(chain)\n", " 
 A(M("c07e-r8-add-loop-silent", "C07", C, "                used.update(chain)\n", "                for number in chain:\n                    used.add(number)\n", kind="silent", **B78))
 A(M("c07e-r8-no-self-test-silent", "C07", C, "                if j is not None and j != i:\n", "                if j is not None:\n", kind="silent", **B78))
 A(M("c07e-union-silent", "C07", C, "                    used.update(loop)\n", "                    used |= set(loop)\n", kind="silent"))
+# round 6: cross-cutting rule diagnostic-purity (sa/diag.py): what is evaluated for a log message leaves everything else alone
+A(M("diag-pop-in-debug", "C05", "annotator.py", "f\"Checking pair {residue_i.full_name} {atom_i.name} - {residue_j.full_name} {atom_j.name}\"", "f\"Checking pair {residue_i.full_name} {atom_i.name} - {residue_j.full_name} {atom_j.name} after {used_atoms.pop() if used_atoms else None}\"", "diagnostic-purity"))
+A(M("diag-row-pop", "C08", "parser.py", "f\"Cannot parse an atom line without chain name, residue number, and residue name: {row}\"", "f\"Cannot parse an atom line without chain name, residue number, and residue name: {row.pop()}\"", "diagnostic-purity"))
+A(M("diag-helper-out", "C18", "tertiary_v2.py", None, None, "diagnostic-purity", edits=[("        df = df[ordered_columns]\n\n        return df\n", "        df = df[ordered_columns]\n        if logger.isEnabledFor(logging.DEBUG):\n            values = df[\"chi\"].to_numpy()\n            np.degrees(values, out=values)\n            logger.debug(\"chi from %s to %s\", values.min(), values.max())\n\n        return df\n"), ("import numpy as np\n", "import logging\n\nimport numpy as np\n\nlogger = logging.getLogger(__name__)\n")]))
+A(M("diag-helper-copy-silent", ["C18", "C15"], "tertiary_v2.py", None, None, kind="silent", edits=[("        df = df[ordered_columns]\n\n        return df\n", "        df = df[ordered_columns]\n        if logger.isEnabledFor(logging.DEBUG):\n            values = np.degrees(df[\"chi\"].to_numpy(dtype=float))\n            defined = values[~np.isnan(values)]\n            shown = []\n            shown.append(len(defined))\n            logger.debug(\"chi defined for %s of %d\", shown, len(values))\n\n        return df\n"), ("import numpy as np\n", "import logging\n\nimport numpy as np\n\nlogger = logging.getLogger(__name__)\n")]))
+A(M("diag-sorted-silent", ["C05", "C03"], "annotator.py", "f\"Checking pair {residue_i.full_name} {atom_i.name} - {residue_j.full_name} {atom_j.name}\"", "f\"Checking pair {residue_i.full_name} {atom_i.name} - {residue_j.full_name} {atom_j.name} after {len(used_atoms)} used atoms, e.g. {sorted(a.name for a in used_atoms)[:3]}\"", kind="silent"))
+A(M("diag-defaultdict-read", "C07", C, "        used = set()\n\n        for i in range(len(loop_candidates)):", "        logging.debug(f\"first candidate has {len(graph[0])} successors\")\n        used = set()\n\n        for i in range(len(loop_candidates)):", "diagnostic-purity"))
+A(M("diag-defaultdict-own-keys-silent", "C07", C, "        used = set()\n\n        for i in range(len(loop_candidates)):", "        logging.debug(f\"successors: {[len(graph[k]) for k in graph]}, first: {len(graph[0]) if 0 in graph else 0}, {len(graph.get(0, ()))}\")\n        used = set()\n\n        for i in range(len(loop_candidates)):", kind="silent"))
 # C05 contact-visit-order (F23)
 A(M("c05-visit-order-unsorted", "C05", "annotator.py", "for i, j in sorted(kdtree.query_pairs(HYDROGEN_BOND_MAX_DISTANCE)):", "for i, j in kdtree.query_pairs(HYDROGEN_BOND_MAX_DISTANCE):", "contact-visit-order"))
 A(M("c05-visit-order-list", "C05", "annotator.py", "for i, j in sorted(kdtree.query_pairs(HYDROGEN_BOND_MAX_DISTANCE)):", "for i, j in list(kdtree.query_pairs(HYDROGEN_BOND_MAX_DISTANCE)):", "contact-visit-order"))
